@@ -23,8 +23,8 @@ use vengine::gen::SplitMix;
 use vengine::{enum_sub, prop_sub, Property, Tier};
 
 fn kernel_strategy(max_n: usize) -> impl Strategy<Value = KCase> {
-    (records(2, max_n, data_class()), kernel_method_any(), any::<u16>(), 1u8..=3, any::<u64>(), 0u8..6, gen::placement(), 0u8..18).prop_map(
-        |((class, mut x), (method, nonneg), k, rhs_cols, rhs_seed, path, (single, mut offset, scale), order)| {
+    (records(2, max_n, data_class()), kernel_method_any(), any::<u16>(), 1u8..=3, any::<u64>(), 0u8..7, gen::placement(), (0u8..18, gen::layout())).prop_map(
+        |((class, mut x), (method, nonneg), k, rhs_cols, rhs_seed, path, (single, mut offset, scale), (order, layout))| {
             offset.truncate(x.first().map(|r| r.len()).unwrap_or(0));
             if nonneg {
                 // fractional polynomial degree: reflect the records into the non-negative orthant so that every
@@ -35,7 +35,7 @@ fn kernel_strategy(max_n: usize) -> impl Strategy<Value = KCase> {
                     }
                 }
             }
-            KCase { class, x, method, k, rhs_cols, rhs_seed, path, offset, scale, single, order }
+            KCase { class, x, method, k, rhs_cols, rhs_seed, path, offset, scale, single, order, layout }
         },
     )
 }
@@ -55,7 +55,8 @@ fn hier_records(max_n: usize) -> impl Strategy<Value = (DataClass, gen::Mat)> {
 fn hier_kernel(l: Link) -> BoxedStrategy<KM> {
     // Ward squares the dissimilarities: only similarities <= 1 (Gaussian kernel) give it a meaning
     match l {
-        Link::Ward => prop_oneof![3 => wide_gaussian_method(), 1 => gaussian_method()].boxed(),
+        // squared dissimilarities: only similarities <= 1 (Gaussian kernel) give them a meaning
+        Link::Ward | Link::Centroid | Link::Median => prop_oneof![3 => wide_gaussian_method(), 1 => gaussian_method()].boxed(),
         Link::Single => prop_oneof![4 => gaussian_method(), 2 => kernel_method()].boxed(),
         _ => prop_oneof![3 => wide_gaussian_method(), 1 => gaussian_method(), 2 => kernel_method()].boxed(),
     }
@@ -69,9 +70,9 @@ fn hier_strategy(max_n: usize, crit: impl Strategy<Value = Crit> + 'static) -> i
         proptest::option::weighted(0.2, any::<u16>()),
         crit,
         any::<bool>(),
-        0u8..18,
+        (0u8..18, gen::layout()),
     )
-        .prop_map(|((class, x), (link, method), sparse_k, crit, via_dataset, order)| HCase { class, x, method, sparse_k, link, crit, via_dataset, order })
+        .prop_map(|((class, x), (link, method), sparse_k, crit, via_dataset, (order, layout))| HCase { class, x, method, sparse_k, link, crit, via_dataset, order, layout })
 }
 
 fn all_num_clusters(max_n: usize) -> Vec<HCase> {
@@ -79,7 +80,7 @@ fn all_num_clusters(max_n: usize) -> Vec<HCase> {
     for n in 2..=max_n {
         let mut g = SplitMix(0xc06 + n as u64);
         let x: gen::Mat = (0..n).map(|_| (0..2).map(|_| (g.gauss() * 1024.0).round() / 1024.0).collect()).collect();
-        for link in [Link::Single, Link::Complete, Link::Average, Link::Weighted, Link::Ward] {
+        for link in [Link::Single, Link::Complete, Link::Average, Link::Weighted, Link::Ward, Link::Centroid, Link::Median] {
             for req in 1..=n + 2 {
                 // inverse of `1 + idx(q, n + 2)`: smallest q that maps to req - 1
                 let target = req - 1;
@@ -93,6 +94,7 @@ fn all_num_clusters(max_n: usize) -> Vec<HCase> {
                     crit: Crit::Num(q.min(65535) as u16),
                     via_dataset: (n + req) % 2 == 0,
                     order: ((n + 2 * req) % 6) as u8,
+                    layout: ((n + req) % 7) as u8,
                 });
             }
         }
@@ -119,6 +121,7 @@ fn tiny_kernels() -> Vec<KCase> {
                     scale: 1.0,
                     single: path >= 3,
                     order: 3 * path + 1,
+                    layout: path + 1,
                 });
             }
         }
@@ -143,6 +146,7 @@ fn near_duplicate_clusters() -> Vec<KCase> {
         scale: 1.0,
         single,
         order: 0,
+        layout: 0,
     };
     let cluster = |n: usize, p: usize, odd: Vec<f64>, pos: usize| -> Vec<Vec<f64>> {
         (0..n).map(|i| if i == pos { odd.clone() } else { vec![0.0; p] }).collect()
@@ -163,9 +167,9 @@ fn tiny_clusterings() -> Vec<HCase> {
     use gen::Theta;
     let mut v = vec![];
     for n in [0usize, 1] {
-        for link in [Link::Single, Link::Complete, Link::Average, Link::Weighted, Link::Ward] {
+        for link in [Link::Single, Link::Complete, Link::Average, Link::Weighted, Link::Ward, Link::Centroid, Link::Median] {
             for method in [KM::Gaussian(1.0), KM::Linear] {
-                if link == Link::Ward && method == KM::Linear {
+                if link.on_squares() && method == KM::Linear {
                     continue;
                 }
                 let crits = [
@@ -179,7 +183,7 @@ fn tiny_clusterings() -> Vec<HCase> {
                 ];
                 for (i, crit) in crits.into_iter().enumerate() {
                     let x: gen::Mat = (0..n).map(|_| vec![0.5, 2.0, -1.0]).collect();
-                    v.push(HCase { class: DataClass::Gaussian, x, method: method.clone(), sparse_k: None, link, crit, via_dataset: i % 2 == 0, order: (i % 6) as u8 });
+                    v.push(HCase { class: DataClass::Gaussian, x, method: method.clone(), sparse_k: None, link, crit, via_dataset: i % 2 == 0, order: (i % 6) as u8, layout: (i % 7) as u8 });
                 }
             }
         }
